@@ -188,6 +188,31 @@ def rule_capacity(u, rep):
                             ok = True
                             if nm == "from_size_align" and len(args) > 1 and args[1] != pd[2]:
                                 ok = False
+            if not ok and not caps:
+                # no raw allocation: a vector built by vec![E::default(); N] (zeroed, safe) with N = capacity / size_of::<E>()
+                E, lay = backend_elem_layout(u)
+                vecs = []
+                def grab(x):
+                    if len(x) > 3 and x[0] == "vec" and isinstance(x[3], tuple) and x[3] and x[3][0] == "repeat":
+                        vecs.append(x)
+                    return False
+                for e in p.events:
+                    if e[0] == "Store":
+                        mentions(e[-1], grab)
+                        mentions(e[1], grab)
+                    elif e[0] == "Call":
+                        mentions(e[6], grab)
+                    elif e[0] == "R":
+                        mentions(e[3], grab)
+                for v in vecs:
+                    N = v[2]
+                    if lay is not None and isinstance(N, tuple) and N and N[0] == "bin" and N[1] == "Div" and N[3] == C(lay["size"]):
+                        S = N[2]
+                        if isinstance(S, tuple) and S and S[0] == "bin" and S[1] == "Add":
+                            for fl, pd in ((S[2], S[3]), (S[3], S[2])):
+                                if isinstance(pd, tuple) and pd and pd[0] == "pad" and pd[1] == fl and is_c(pd[2]) and pd[2][1] >= 1 and pd[2][1] % lay["size"] == 0 and (pd[2][1] & (pd[2][1] - 1)) == 0:
+                                    ok = True
+                    caps.append(("vec", (N,)))
             rep.oblige(ok)
             rep.count("capacity_sites")
             if not ok:
@@ -356,19 +381,24 @@ def rule_store(u, rep):
 
 
 # ---------------------------------------------------------------------- C13
-def rule_err_to_ok(u, rep, scope_files, crate="epserde"):
-    """No path on which a callee's Err is observed (match / if let / is_err) returns Ok."""
+def rule_err_to_ok(u, rep, scope_files, crate="epserde", errs=None, exclude_fn=None):
+    """No path on which a callee's Err is observed (match / if let / is_err) returns Ok.
+    errs: only functions whose own error type is one of these (serialization vs deserialization side)."""
     n = 0
     for b in u.bodies.values():
         if b.thir is None or b.d.get("krate") != crate or b.kind not in ("Fn", "AssocFn") or not rules_err.in_scope(b, scope_files):
             continue
-        if b.output is None:
+        if b.output is None or (exclude_fn and exclude_fn(b)):
             continue
         ot = b.crate.ty(b.output)
         if not (ot[0] == "adt" and ot[1] == RESULT):
             continue
+        if errs is not None and not (len(ot[2]) >= 2 and isinstance(ot[2][1], tuple) and ot[2][1][0] == "adt" and ot[2][1][1] in errs):
+            continue
         try:
-            ip = interp.Interp(u, LoaderHooks())
+            hk = LoaderHooks()
+            hk.opaque_results = True
+            ip = interp.Interp(u, hk)
             paths = ip.run(b, None)
         except (interp.Unsupported, RecursionError):
             continue
@@ -536,10 +566,8 @@ def rule_maplen(u, rep):
     return n
 
 
-def rule_alloc_layout(u, rep):
-    """load_mem: the raw allocation is handed to Vec<E>::from_raw_parts (E = element type of MemBackend::Memory);
-    Vec/Box release it with Layout::array::<E>(cap), so the allocation must be made with exactly that layout:
-    align == align_of::<E>(), size == cap * size_of::<E>(), len <= cap."""
+def backend_elem_layout(u):
+    """(E, layout) of the element type of MemBackend::Memory(Box<[E]>)"""
     E = None
     for aid, (c2, aj2) in u.adts.items():
         if aid.endswith("::MemBackend"):
@@ -554,6 +582,14 @@ def rule_alloc_layout(u, rep):
             l = aj3.get("layout")
             if l is not None and E is not None and c3.raw_tys[l["norm"]]["s"].split("::")[-1] == ty_str(E).split("::")[-1]:
                 lay = l
+    return E, lay
+
+
+def rule_alloc_layout(u, rep):
+    """load_mem: the raw allocation is handed to Vec<E>::from_raw_parts (E = element type of MemBackend::Memory);
+    Vec/Box release it with Layout::array::<E>(cap), so the allocation must be made with exactly that layout:
+    align == align_of::<E>(), size == cap * size_of::<E>(), len <= cap."""
+    E, lay = backend_elem_layout(u)
     if E is None or lay is None:
         rep.add("ANCHOR", "MemBackend::Memory", "cannot determine the element type of the heap backend and its layout")
         return 0
@@ -599,5 +635,18 @@ def rule_alloc_layout(u, rep):
                     rep.oblige(ok)
                     if not ok:
                         rep.add("ALLOC-LAYOUT", "load_mem:" + key, "load_mem: the heap region " + msg + ": it is not released as it was allocated", e[4])
+    if n == 0:
+        # no raw allocation handed to from_raw_parts: nothing to match (the vector is built and released by safe code)
+        for b in loaders(u):
+            if b.d.get("name") != "load_mem":
+                continue
+            acc = []
+            from . import rules_err
+            rules_err.calls_in(b.crate, b.thir["root"], acc)
+            names = {dj.get("name") for dj, _r, _e in acc}
+            if not (names & {"alloc", "alloc_zeroed", "from_raw_parts", "from_raw", "realloc"}):
+                n += 1
+                rep.oblige(True)
+                rep.count("alloc_layout_safe_construction")
     rep.count("alloc_layout_sites", n)
     return n
